@@ -65,6 +65,12 @@ def doLine (d : D) (ws : List String) : D × String :=
     | ["hlisten", sc] =>
         let (s1, r) := step s (Op.listen (parseScript sc))
         ({ d with s := s1, hook := false }, match r with | Res.id l => s!"hlisten L{l}" | _ => "bad-op")
+    | ["hlisten0", sc] =>
+        -- the registration function drops the collector: last handle gone, the destructor's suspend point is flushed
+        let (s1, r) := step s (Op.listen (parseScript sc))
+        let s2 := st s1 Op.dropHandle
+        ({ d with s := resumeAll s2 (newRel s1 s2), hook := false, hs := [false] },
+          match r with | Res.id l => s!"hlisten0 L{l}" | _ => "bad-op")
     | _ => (d, "bad-op")
   else
   match ws with
